@@ -1,6 +1,6 @@
 SPECIFICATION Spec
 CONSTANTS TypeSet = {"pml", "periodic", "pec", "pmc", "bloch"}  BaseSet = {"pml", "periodic", "other"}  OvSet = {"none", "pec", "bloch"}
-          MaxTh = 2  ThickMode = "one"  NX = 5  NY = 6  NZ = 7  Variant = "code"
+          MaxTh = 2  ThickMode = "one"  Scope = "near"  NX = 5  NY = 6  NZ = 7  Variant = "code"
 INVARIANT TypeOK
 INVARIANT ErrorIffUnknown
 INVARIANT TablesPerFace
@@ -12,4 +12,5 @@ INVARIANT SlabFlush
 INVARIANT OppositeDisjoint
 INVARIANT CornerExact
 INVARIANT WrapIffPeriodic
+INVARIANT InsideAvoidsPml
 CHECK_DEADLOCK FALSE
